@@ -233,7 +233,14 @@ def readFromStream(substrate, size=-1, context=None):
     """
     while True:
         # this will block unless stream is non-blocking
-        received = substrate.read(size)
+        try:
+            received = substrate.read(size)
+
+        except OverflowError:
+            # the requested size does not even fit the stream API:
+            # no stream can ever deliver that many octets
+            raise error.EndOfStreamError(context=context)
+
         if received is None:  # non-blocking stream can do this
             yield error.SubstrateUnderrunError(context=context)
 
